@@ -302,6 +302,10 @@ def run(ctx):
     from rules import c19 as _c19
 
     _c19.r19_2_callers(ctx)
+    _c19.r19_5_signature_types(ctx)  # the parameter types of the called method are the ones its signature names (shared with C19)
+    from rules import c13 as _c13
+
+    _c13.r13_1_bytes_forms(ctx)  # the selector placed in ApplicationArgs[0] is the hash of the signature text itself (shared with C13)
     _c19.r19_1_relation(ctx)
     return (
         "Abstract evaluation of InnerTxnBuilder.MethodCall on symbolic signatures (plain, reference and transaction parameters in several orders, ABI values and raw expressions): "
